@@ -7,4 +7,10 @@ CHECKS = {
         "assumptions": ["offsets |v| < 2^62 as the property states; measurement timestamps within +-100 years of 2000 (time.Time.Sub does not saturate)"],
         "timeout_quick": 300, "timeout_thorough": 1500,
     },
+    "C04": {
+        "pkg": "c04",
+        "rule": "rapid-generated (reference, delta) pairs, era- and window-edge dense, plus enumerations of the nanosecond and fraction fields.",
+        "assumptions": ["reference times 1970..2500 as the property states"],
+        "timeout_quick": 300, "timeout_thorough": 1500,
+    },
 }
